@@ -310,6 +310,16 @@ def gen_case(rng: common.Rng, shape: str | None = None, kind: str | None = None,
     sizes = system["vars"]
     case = dict(system)
     case["mda"] = gen_mda(rng, system, cls)
+    if system["shape"] != "strong" and case["mda"]["cls"] not in ("MDAJacobi", "MDAChain"):
+        # The elementary MDAs other than MDAJacobi only resolve the strong couplings (MDANewtonRaphson even
+        # rejects weakly coupled disciplines): systems with weakly coupled disciplines are solved through
+        # MDAChain, which is what GEMSEO prescribes. Direct use is exercised by the probe stream only.
+        m = case["mda"]
+        inner = {"MDASequential": "MDAGaussSeidel"}.get(m["cls"], m["cls"])
+        for k in ("seq", "seq_first_iter"):
+            m.pop(k, None)
+        m["inner"] = inner
+        m["cls"] = "MDAChain"
     n_runs = 2 if case["mda"]["warm"] or rng.chance(0.2) else 1
     runs = []
     for _ in range(n_runs):
@@ -385,7 +395,7 @@ def build_mda(case: dict[str, Any]):
         elif inner == "MDAQuasiNewton":
             inner_settings = qn({})
         else:
-            inner_settings = {"gauss_seidel_settings": _solver_settings(m), "newton_settings": _solver_settings(m)}
+            inner_settings = {}
         mda = fac.create(cls, listed, **base, inner_mda_name=inner, inner_mda_settings=inner_settings)
     else:
         raise ValueError(cls)
@@ -422,3 +432,104 @@ def run_impl(case: dict[str, Any]) -> dict[str, Any]:
         obs["runs"].append(r)
     obs["tolerance"] = float(mda.settings.tolerance)
     return obs
+
+
+# --------------------------------------------------------------------------- oracle (property text)
+
+
+def _num(v) -> Fraction | None:
+    try:
+        return F(v)
+    except (ValueError, TypeError, OverflowError):
+        return None
+
+
+def case_class(case: dict[str, Any]) -> str:
+    m = case["mda"]
+    cls = m["cls"]
+    if cls == "MDAChain":
+        cls += "/" + m["inner"]
+    if cls.endswith("MDAQuasiNewton"):
+        return f"{cls}:{m['method']}"
+    if cls == "MDASequential":
+        cls += "/" + "+".join(m["seq"])
+    relax = "relax" if Fraction(m["omega"]) != 1 else "norelax"
+    return f"{cls}:{m['accel']}:{relax}"
+
+
+def oracle(case: dict[str, Any], obs: dict[str, Any]) -> list[tuple[str, str]]:
+    """Clauses of the property violated by the observed behaviour: list of (key, message)."""
+    bad: list[tuple[str, str]] = []
+    kc = case_class(case)
+    if "build_exc" in obs:
+        return [(f"{kc}:build-raises", f"the MDA cannot be built on a well-posed system: {obs['build_exc']}")]
+    sysm = System(case)
+    sizes = sysm.sizes
+    tol = Fraction(case["mda"]["tol"])
+    kb = sysm.lipschitz_bound()
+    n_c = sum(sizes[o] for o in sysm.outputs)
+    dmax = Fraction(0)
+    prev_out: dict[str, list[Fraction]] | None = None
+    for ridx, (run, r) in enumerate(zip(case["runs"], obs["runs"])):
+        tag = f"run{ridx}"
+        if "exc" in r:
+            bad.append((f"{kc}:raises", f"{tag}: execute raised {r['exc']}"))
+            prev_out = None
+            continue
+        ext = {"x": [Fraction(t) for t in run["x"]]}
+        if sysm.linear:
+            sol = sysm.exact_solution(ext)
+        else:
+            sol = {k: [F(t) for t in v] for k, v in sysm.reference_solution({"x": [float(t) for t in ext["x"]]}).items()}
+        # starting points the algorithm may have used: zero defaults, explicit values, previous solution
+        starts = [{o: [Fraction(0)] * sizes[o] for o in sysm.outputs}]
+        if run.get("y0"):
+            s = {o: [Fraction(0)] * sizes[o] for o in sysm.outputs}
+            s.update({k: [Fraction(t) for t in v] for k, v in run["y0"].items()})
+            starts.append(s)
+        if prev_out is not None:
+            starts.append(prev_out)
+        for s in starts:
+            for o in sysm.outputs:
+                for a, b in zip(s[o], sol[o]):
+                    dmax = max(dmax, abs(a - b))
+        # generous upper bound of every residual scale of the code (see notes/C06.md)
+        scale = Fraction(math.isqrt(n_c) + 1) * max(Fraction(1), (1 + kb) * dmax)
+        bound = tol * scale
+        out = r["out"]
+        vals: dict[str, list[Fraction]] = {}
+        missing = False
+        for o in sysm.outputs:
+            vs = [_num(t) for t in out.get(o, [])]
+            if len(vs) != sizes[o] or any(v is None for v in vs):
+                missing = True
+            else:
+                vals[o] = vs
+        if missing:
+            bad.append((f"{kc}:not-finite", f"{tag}: returned couplings are missing or not finite: { {o: out.get(o) for o in sysm.outputs} }"))
+            prev_out = None
+            continue
+        ymax = max([abs(v) for vs in vals.values() for v in vs] + [Fraction(1)])
+        slack = Fraction(1, 10**13) * ymax
+        # clause 1: re-executing any discipline on the returned data reproduces the returned outputs
+        data = dict(vals)
+        data.update(ext)
+        worst, where = Fraction(0), ""
+        for k, d in enumerate(sysm.discs):
+            if sysm.linear:
+                res = sysm.eval_disc(k, data, exact=True)
+            else:
+                res = {o: [F(t) for t in v] for o, v in sysm.eval_disc(k, {i: [float(t) for t in v] for i, v in data.items()}, exact=False).items()}
+            for o, v in res.items():
+                for a, b in zip(v, vals[o]):
+                    if abs(a - b) > worst:
+                        worst, where = abs(a - b), f"{d['name']}.{o}"
+        if not (worst <= bound + slack):
+            bad.append((f"{kc}:residual", f"{tag}: re-executing {where} on the returned data changes it by {float(worst):.3e} > tol*scale = {float(bound):.3e}"))
+        # clause 2: agreement with the exact solution: K/(1-K) <= 1 for K <= 1/2; factor 2 covers 1/(1-K)
+        dist = max(abs(a - b) for o in sysm.outputs for a, b in zip(vals[o], sol[o]))
+        ref_slack = slack if sysm.linear else slack + Fraction(1, 10**12)
+        if not (dist <= 2 * bound + ref_slack):
+            bad.append((f"{kc}:solution", f"{tag}: returned couplings are at distance {float(dist):.3e} from the exact solution > 2*tol*scale = {float(2 * bound):.3e}"))
+        prev_out = vals
+    return bad
